@@ -104,6 +104,34 @@ Definition wants_ok (r : reply_on) : bool := match r with RAlways | RSuccess => 
 Definition wants_err (r : reply_on) : bool := match r with RAlways | RError => true | _ => false end.
 
 (* ---------- dispatch ---------- *)
+(* messages whose execution emits no further sub-messages *)
+Definition exec_simple (w : world) (sender : addr) (m : msg) : res (world * event) :=
+  match m with
+  | MSwapInput v d q l c =>
+      do vm <- get_vamm w v;
+      do x <- swap_input vm (w_env w) sender d q l c;
+      Ok (set_vamm w v (fst x), EvSwap (fst (snd x)) (snd (snd x)))
+  | MSwapOutput v d b l =>
+      do vm <- get_vamm w v;
+      do x <- swap_output vm (w_env w) sender d b l;
+      Ok (set_vamm w v (fst x), EvSwap (snd (snd x)) (fst (snd x)))
+  | MSettleFunding v =>
+      do vm <- get_vamm w v;
+      do x <- settle_funding vm (w_env w) sender (oracle_of w vm);
+      Ok (set_vamm w v (fst x), EvFunding (snd x) v)
+  | MSetOpen v o =>
+      do vm <- get_vamm w v;
+      do vm' <- set_open vm (w_env w) sender o;
+      Ok (set_vamm w v vm', EvNone)
+  | MTransfer to amt =>
+      do t <- tok_move (w_tok w) sender to amt;
+      Ok (set_tok w t, EvNone)
+  | MTransferFrom owner to amt =>
+      do t <- tok_move_from (w_tok w) (sender =? A_ENGINE) owner to amt;
+      Ok (set_tok w t, EvNone)
+  | MIfWithdraw _ _ => Err EDecode
+  end.
+
 (* f = index (in dispatch order, from 0) of the sub-message that fails instead of executing;
    f < 0 : no fault.  n = number of sub-messages dispatched so far in this transaction. *)
 Fixpoint dispatch (fuel : nat) (f : Z) (w : world) (n : Z) (sender : addr) (subs : list submsg) {struct fuel}
@@ -117,33 +145,12 @@ Fixpoint dispatch (fuel : nat) (f : Z) (w : world) (n : Z) (sender : addr) (subs
           let r : res (world * Z * event) :=
             if n =? f then Err ESub else
             match sm_msg s with
-            | MSwapInput v d q l c =>
-                do vm <- get_vamm w v;
-                do x <- swap_input vm (w_env w) sender d q l c;
-                Ok (set_vamm w v (fst x), n + 1, EvSwap (fst (snd x)) (snd (snd x)))
-            | MSwapOutput v d b l =>
-                do vm <- get_vamm w v;
-                do x <- swap_output vm (w_env w) sender d b l;
-                Ok (set_vamm w v (fst x), n + 1, EvSwap (snd (snd x)) (fst (snd x)))
-            | MSettleFunding v =>
-                do vm <- get_vamm w v;
-                do x <- settle_funding vm (w_env w) sender (oracle_of w vm);
-                Ok (set_vamm w v (fst x), n + 1, EvFunding (snd x) v)
-            | MSetOpen v o =>
-                do vm <- get_vamm w v;
-                do vm' <- set_open vm (w_env w) sender o;
-                Ok (set_vamm w v vm', n + 1, EvNone)
-            | MTransfer to amt =>
-                do t <- tok_move (w_tok w) sender to amt;
-                Ok (set_tok w t, n + 1, EvNone)
-            | MTransferFrom owner to amt =>
-                do t <- tok_move_from (w_tok w) (sender =? A_ENGINE) owner to amt;
-                Ok (set_tok w t, n + 1, EvNone)
             | MIfWithdraw target amt =>
                 check (target =? A_IFUND) else EDecode;
                 do x <- if_withdraw w sender amt;
                 do y <- dispatch k f (fst x) (n + 1) A_IFUND (snd x);
                 Ok (fst y, snd y, EvNone)
+            | m => do x <- exec_simple w sender m; Ok (fst x, n + 1, snd x)
             end in
           match r with
           | Ok (w1, n1, ev) =>
